@@ -366,6 +366,9 @@ def _eq(e, g, rel, abs_):
         return False
     num = ('int', 'float', 'complex')
     if ke in num and kg in num:
+        if ke == 'float' and kg == 'complex' and not math.isfinite(float(e)):
+            # a real column computed in a complex out buffer: inf arithmetic leaves nan in the imaginary part
+            return canon.ceq(ce, cs(complex(g).real), rel, abs_)
         if ke == 'int':
             return canon.veq(ce, cg)
         return canon.ceq(ce, cg, rel, abs_)
@@ -407,6 +410,8 @@ def _model(arr, labels, op):
         if all(miss) or (any(miss) and not skipna):
             return ('exc',) if fn.startswith('loc') else ('val', float('nan'))
         cand = [(v, i) for i, (v, m) in enumerate(zip(elems, miss)) if not m]
+        if any(miss) and all(v == (float('inf') if fn.endswith('min') else float('-inf')) for v, _ in cand):
+            return ('free',)   # NumPy's nanarg* fill NaN with +-inf: ties with a genuine +-inf extreme are its documented quirk
         best = cand[0]
         for v, i in cand[1:]:
             if (v < best[0]) if fn.endswith('min') else (v > best[0]):
@@ -553,7 +558,9 @@ def _fits(v, dtype):
             return isinstance(v, str) and len(v) <= dtype.itemsize // 4
         if dtype.kind == 'f':
             if isinstance(v, (int, np.integer)) and not isinstance(v, (bool, np.bool_)):
-                return abs(int(v)) <= 2 ** 53
+                with np.errstate(all='ignore'):
+                    x = float(np.array(int(v), dtype=object).astype(dtype))
+                return math.isfinite(x) and int(x) == int(v)   # exactly representable (2**53 / 2**24 / 2**11 and beyond)
             return not isinstance(v, (complex, np.complexfloating))
     except Exception:
         return None
@@ -838,7 +845,8 @@ def _judge_series(ctx, case, spec, lay, base, res, lines, exp_labels, full, viol
             continue
         if e[0] == 'miss_or_exc':
             if not _is_missing(g):
-                violate('missing_treated_as_number', _line_klass(base, ln, lay, j, axis, row_dtype), layout=F.layout_name(lay), line=j,
+                violate('missing_treated_as_number', dict(_line_klass(base, ln, lay, j, axis, row_dtype), got_is_array=isinstance(g, np.ndarray)),
+                        layout=F.layout_name(lay), line=j,
                         line_values=canon.brief(canon.arr_cells(ln.arr), 300), got=canon.brief(cs(g), 200))
             else:
                 ctx.tally('cells_agreed', ln.kind)
